@@ -94,3 +94,25 @@ func Subset(t *rapid.T, mods []Module, label string) []string {
 	}
 	return out
 }
+
+// YieldPoints are the guarded yield points of the modules package that matter for lifecycle hand-overs.
+var YieldPoints = []string{
+	"modules.work.decremented", "modules.stopcheck.complete",
+	"modules.stop.ctrlflag", "modules.stop.stopflag", "modules.stop.cancelled", "modules.stop.waiting",
+	"modules.ctrlfn.returned", "modules.ctrlfn.returned",
+}
+
+// GenDelays draws 0..max perturbation delays at the guarded yield points.
+func GenDelays(t *rapid.T, mods []Module, max int) []Delay {
+	var out []Delay
+	n := rapid.IntRange(0, max).Draw(t, "ndelays")
+	for i := 0; i < n; i++ {
+		out = append(out, Delay{
+			Point:   rapid.SampledFrom(YieldPoints).Draw(t, "point"),
+			Ctx:     mods[rapid.IntRange(0, len(mods)-1).Draw(t, "pctx")].Name,
+			Nth:     rapid.IntRange(0, 3).Draw(t, "nth"),
+			DelayUS: rapid.SampledFrom([]int{200, 2000, 8000}).Draw(t, "pdelay"),
+		})
+	}
+	return out
+}
